@@ -2,6 +2,7 @@
 import Ekit.Lemmas.PoolP2
 import Ekit.Lemmas.PoolF
 import Ekit.Lemmas.PoolN
+import Ekit.Lemmas.PoolK
 namespace Ekit.Pool
 open Ekit.Conc
 
@@ -37,5 +38,16 @@ theorem reach_invN (c : Cfg) (hv : c.initGo ≤ c.maxGo) : ∀ s, (sys c).Reacha
     cases l with
     | w i a => exact invN_wstep c s0 s1 i a ih hs
     | c t a => exact invN_cstep c s0 s1 t a hall.a ih hs
+
+theorem reach_invK (c : Cfg) (hv : c.initGo ≤ c.maxGo) : ∀ s, (sys c).Reachable s → (LK c).Inv s := by
+  intro s hr
+  induction hr with
+  | init => exact invK_init c
+  | step hr0 hs ih =>
+    rename_i s0 s1 l
+    have hall := reach_invAll c hv s0 hr0
+    cases l with
+    | w i a => exact invK_wstep c s0 s1 i a hall.a hall.b hall.g ih hs
+    | c t a => exact invK_cstep c s0 s1 t a hall.b ih hs
 
 end Ekit.Pool
